@@ -34,7 +34,7 @@ CLAIMED = {
             "the fresh project is the reference; time stamps owned by a logical clock; AutoImport indexes filled with update_resource (no process pool); bounded depth and alphabet", "3/C13"),
     "C03": ("exploration",
             "bounded-exhaustive enumeration of (function body, region, options) with CPython execution before/after as the oracle",
-            "All bodies of <=2 (3) statements over 21 data-flow atoms in a function host, a method host, module-level hosts (inside a loop and directly in the module body) and a class whose classmethod/staticmethod/regular sibling methods repeat the body x every contiguous statement run at every nesting level and every sub-expression x ExtractMethod/ExtractVariable x similar/global_/kind options are refactored with the real code; each performed result is compiled and executed for inputs 0,1,2 and must print what the original printed; refusals must leave the disk unchanged.",
+            "All bodies of <=2 (3) statements over 23 data-flow atoms in a function host, a method host, module-level hosts (inside a loop and directly in the module body) and a class whose classmethod/staticmethod/regular sibling methods repeat the body x every contiguous statement run at every nesting level and every sub-expression x ExtractMethod/ExtractVariable x similar/global_/kind options are refactored with the real code; each performed result is compiled and executed for inputs 0,1,2 and must print what the original printed; refusals must leave the disk unchanged.",
             "behaviour is compared on the enumerated inputs only; bounded body length and atom alphabet", "3/C03"),
     "C04": ("exploration",
             "bounded-exhaustive enumeration of (definition shape, call-site list, host, query point, options) with CPython execution before/after as the oracle",
